@@ -391,6 +391,8 @@ func decode(thread *starlark.Thread, b *starlark.Builtin, args starlark.Tuple, k
 					break
 				} else if b >= utf8.RuneSelf {
 					safe = false
+				} else if b < ' ' {
+					fail("invalid character %q in string literal", b)
 				}
 			}
 			if !closed {
